@@ -5,7 +5,11 @@ Driver for the daily ledger model (C11).
   world <N>                                                   -> ok        (start a new world)
   em <start> <nrd> <delay> <rep> <interm> <aDur> <iDur> <rate*1024> [[day,company,trd(,kind)],...] -> ok
   rows      -> "new:active:repaired:natRepaired:expired:emis:emisMit:emisNonMit" per day, ';'-joined
-  recrows   -> "active:emis:emisMit:emisNonMit" per day recomputed from the records alone
+  recrows   -> the same eight columns per day recomputed from the records alone (`recRow` of
+               `records w N`: start, end date, end kind, rate, repairability — Props/C11 `reconstruct_row`)
+  emit      -> "A:D" per day: summed rates of emissions active after the update and emitting after it
+               (A, `is_emitting()` when the row is written) / emitting during the day (D)
+  recs      -> "present:start:endDate|-:rate:repairable:status:by" per emission, ';'-joined
 -/
 open LdarModel LdarModel.Emission LdarModel.World LdarModel.Proto
 
@@ -23,13 +27,15 @@ def parseEv (s : String) : Option (Nat × Ev) := do
 def showRow (r : Row) : String :=
   s!"{r.new}:{r.active}:{r.repaired}:{r.natRepaired}:{r.expired}:{r.emis}:{r.emisMit}:{r.emisNonMit}"
 
-def recRow (w : List Em) (N n : Nat) : String :=
-  let recs := w.map (fun e => recOf e N)
-  let act := (recs.map (fun r => ind (recActiveAfter r n))).sum
-  let em := (recs.map (fun r => ind (recActiveAfter r n) * r.rate)).sum
-  let mit := (recs.map (fun r => if r.repairable then ind (recActiveAfter r n) * r.rate else 0)).sum
-  let non := (recs.map (fun r => if r.repairable then 0 else ind (recActiveAfter r n) * r.rate)).sum
-  s!"{act}:{em}:{mit}:{non}"
+def showStatus : Status → String
+  | .inactive => "inactive" | .active => "active" | .repaired => "repaired" | .expired => "expired"
+
+def showBy : By → String
+  | .none => "-" | .natural => "natural" | .expire => "expire" | .company c => s!"c{c}"
+
+def showRec (r : Rec) : String :=
+  let ed := match r.endDate with | none => "-" | some d => toString d
+  s!"{if r.present then 1 else 0}:{r.start}:{ed}:{r.rate}:{if r.repairable then 1 else 0}:{showStatus r.status}:{showBy r.by_}"
 
 def step (s : DS) (toks : List String) : DS × String :=
   match toks with
@@ -45,7 +51,12 @@ def step (s : DS) (toks : List String) : DS × String :=
       ({ s with w := s.w ++ [{ p := p, rate := rate, ev := ev }] }, "ok")
     | _, _, _, _, _, _, _, _, _ => (s, "bad-op")
   | ["rows"] => (s, ";".intercalate ((List.range s.n).map (fun n => showRow (row s.w n))))
-  | ["recrows"] => (s, ";".intercalate ((List.range s.n).map (fun n => recRow s.w s.n n)))
+  | ["recrows"] =>
+    let rs := records s.w s.n
+    (s, ";".intercalate ((List.range s.n).map (fun n => showRow (recRow rs n))))
+  | ["emit"] => (s, ";".intercalate ((List.range s.n).map (fun n =>
+      s!"{emittingSum s.w n true}:{emittingSum s.w n false}")))
+  | ["recs"] => (s, ";".intercalate ((records s.w s.n).map showRec))
   | _ => (s, "bad-op")
 
 def main : IO Unit := runDriver step {}
